@@ -322,7 +322,9 @@ def run(ctx):
                         break
                 klen = len(mcb) - used
                 want = {0xec: 32, 0xed: 32, 0x1200: 33, 0x1201: 49, 0x1202: None, 0x1205: None}
-                if code not in want:
+                if not bytes.fromhex(op.get("id", "")).startswith(b"z"):
+                    violation("did-key-accepted-without-multibase-prefix", f"{didb[:80]!r} resolved although the identifier does not start with the base58btc prefix 'z'", node_line + "\n" + opl)
+                elif code not in want:
                     violation("did-key-accepted-with-unsupported-codec", f"{didb[:80]!r} resolved although its multicodec 0x{code:x} is not a supported public key type", node_line + "\n" + opl)
                 elif want[code] is not None and klen != want[code]:
                     violation("did-key-accepted-with-wrong-key-length", f"{didb[:80]!r} resolved: codec 0x{code:x} with a key of {klen} bytes (must be {want[code]})", node_line + "\n" + opl)
@@ -371,5 +373,5 @@ def run(ctx):
                        "document ids, oversize and broken bodies, transport errors; real local TLS+HTTP servers for the 'sock' family); the real vdr.Module for "
                        "router / local-first / deactivation / did:jwk / did:key. distinct_nontrivial = distinct inputs that got past the syntactic rejections")
 
-    ctx.cov["input_distribution"] = {"by_generator_family": dict(tags.most_common(24)), "outcomes": dict(outcomes.most_common(40)), "features": dict(feats)}
+    ctx.cov["input_distribution"] = {"by_generator_family": dict(tags.most_common(24)), "outcomes": dict(outcomes.most_common(80)), "features": dict(feats)}
     ctx.cov["samples"] = [all_ops[40][:300] if len(all_ops) > 40 else "", all_impl[40][:300] if len(all_impl) > 40 else ""]
